@@ -96,6 +96,13 @@ package keeper
 //@ func (k Keeper) GetUtilisationRatioByPoolIDAndAssetID
 //@   property C18
 //@   pure
+//@   let st = k.GetAssetStatsByPoolIDAndAssetID(ctx, poolID, assetID).0
+//@   let cash = bal(modaddr(k.GetPool(ctx, poolID).0.ModuleName), k.Asset.GetAsset(ctx, assetID).0.Denom)
+//@   let debt = st.TotalBorrowed + st.TotalStableBorrowed
+//@   requires #stats-nonneg: st.TotalBorrowed >= 0 && st.TotalStableBorrowed >= 0 && cash + debt < pow2(63)
+//@   ensures #c18-utilisation-is-debt-over-cash-plus-debt: result1 == nil && cash + debt > 0 ==> result0 == decQuo(debt * ONE, (cash + debt) * ONE)
+//@   ensures #c18-utilisation-within-unit-interval: result1 == nil ==> result0 >= 0 && result0 <= ONE
+//@   ensures #c18-zero-utilisation-of-an-empty-pool: result1 == nil && cash + debt == 0 ==> result0 == 0
 
 //@ func (k Keeper) GetLendAPRByAssetIDAndPoolID
 //@   property C18
